@@ -64,8 +64,10 @@ def draw_sim_config(ch, *, allow_threads=True, allow_recompute=True, probes=Fals
 class Sim:
     """context manager for one simulated execution phase"""
 
-    def __init__(self, ch, cfg: SimConfig | None = None, graph_shape=True):
+    def __init__(self, ch, cfg: SimConfig | None = None, graph_shape=True, run=None):
         self.ch = ch
+        self.run = run
+        self.nondefault_shape = False
         self.cfg = cfg or SimConfig(trace_root=TRACE_ROOT)
         self.sched = SimScheduler(ch, self.cfg)
         self.graph_shape = graph_shape
@@ -79,10 +81,16 @@ class Sim:
 
         settings = {"scheduler": self.sched}
         if self.graph_shape:
-            self.optimize_graph = not self.ch.bool(0.25, "no-optimize")
-            self.fuse = self.ch.pick([None, True, False], "fuse")
+            # graph shape (dask optimisation flags) is NOT in what the properties quantify over, and dask itself
+            # mis-executes some unoptimised graphs (0-d from_delayed blocks): a run with a non-default shape is a
+            # probe run -- its findings are counted and printed as PROBE, never as VIOLATION.
+            self.optimize_graph = not self.ch.bool(0.08, "no-optimize")
+            self.fuse = self.ch.pick([None, True, False], "fuse", weights=[0.84, 0.08, 0.08])
             if self.fuse is not None:
                 settings["optimization.fuse.active"] = self.fuse
+            self.nondefault_shape = (not self.optimize_graph) or self.fuse is not None
+            if self.run is not None and self.nondefault_shape:
+                self.run.probe_run = True
         self._ctx = dask.config.set(settings)
         self._ctx.__enter__()
         # cooperative config lock (bound as a default argument of set.__init__)
